@@ -909,7 +909,10 @@ class FnTranslator:
             else:
                 if scalar_ty(prm, "parameter") != scalar_ty(arg, "argument"):
                     self.err(n, f"call of '{fname}': argument type differs from the parameter type")
-                sub[prm["id"]] = self.expr(arg)
+                e = self.expr(arg)
+                if any(t in e for t in (".load", ".pload", ".avar")):
+                    self.err(n, f"call of '{fname}': a scalar argument that reads memory is substituted by name in the inlined body")
+                sub[prm["id"]] = e
         self.inline.append(sub)
         self.inline_depth += 1
         saved_name, saved_ret = self.name, self.ret_slot
@@ -1098,6 +1101,8 @@ class FnTranslator:
                 c = c["inner"][0]
             if c.get("kind") != "DeclRefExpr" or c["referencedDecl"]["id"] not in self.pslots:
                 self.err(n, "++/-- on a pointer that is not a pointer local")
+            if SIZEOF[ptr_elem_ty(qual(c))] % 8 != 0:
+                self.err(n, "++ on a pointer whose element is not a whole number of 8-byte cells")
             cells = SIZEOF[ptr_elem_ty(qual(c))] // 8
             s0 = self.pslots[c["referencedDecl"]["id"]]
             if n["opcode"] == "--":
